@@ -380,8 +380,10 @@ func (set *Set) add(hosts ...*Host) {
 		set.all[host.Addr] = host
 	}
 	// the same address may appear more than once in hosts, only the last wins.
+	// a host which is already marked unhealthy (e.g. added again) stays out
+	// of the healthy hosts.
 	for _, host := range hosts {
-		if set.all[host.Addr] == host {
+		if set.all[host.Addr] == host && host.IsHealthy() {
 			set.addToHealthy(host)
 		}
 	}
